@@ -242,7 +242,7 @@ def build():
         uw = ["--unwind", str(unw), "--unwindset", "binson_parser_field_with_length.0:%d,ref_field.0:%d" % (n // 3 + 2, n // 3 + 2)]
         J.append(Job("E3/" + nm, "E3", "bounded/h_nav.c", "h_nav", pr, defs=defs,
                      cbmc_args=uw + ["--unwinding-assertions", "--no-standard-checks"],
-                     timeout=1200 if doc else 3600, mem_gb=8 if doc else (22 if heavy else 16), tier=tier,
+                     timeout=240 if doc else 3600, mem_gb=6 if doc else (22 if heavy else 16), tier=tier,
                      note="BOUNDED: all valid %s-rooted documents of exactly %d bytes x call sequence %s (E enter root, N next, O/A go_into_object/array, o/a leave_object/array, R get_raw, F/G/H field lookups); memory-safety checks are off in this tier (they are decided by E1/E2)" % ("array" if root else "object", n, seq)))
         if doc and pinned_regular:
             J[-1].props.update(NAV_MORE)          # pinned runs are cheap: they serve the decode / latching tags too
